@@ -225,6 +225,61 @@ theorem child_presentation_keeps_marker (m : Msg) (w : W) (n : Int) (hc : m.chil
   · simp [PDict.has_erase_ne _ hk]
   · rfl
 
+/-- **Every presentation on the system child presents the node, whatever its type.**  The base
+handler (`protocol_14.handle_presentation`) looks at the child id only: a presentation on child 255
+from a node other than the gateway — type 17, 18, a sensor type, a type outside every table —
+registers a fresh entry (that type, the payload as the node's version, no children) and is handed
+on; it never fails with a missing-node error. -/
+theorem system_child_presentation_any_type (env : Env) (v : Ver) (m : Msg) (w : W)
+    (hc : m.child = Gen.systemChildId) (hn : m.node ≠ 0) :
+    hPresentation env v m w =
+      (.ok m, { w with st := { w.st with nodes := w.st.nodes.set m.node { ntype := m.type, pv := m.payload } } }) := by
+  simp [hPresentation, hc, hn, M.seq, M.bind, setNode, M.modifySt, M.pure]
+
+/-- … and a presentation on any OTHER child is a child presentation whatever its type (also the
+node types 17 / 18): from a node that is not registered it fails with the missing-node error and
+changes nothing. -/
+theorem other_child_presentation_any_type (env : Env) (v : Ver) (m : Msg) (w : W)
+    (hc : m.child ≠ Gen.systemChildId) (hn : w.st.nodes.get? m.node = none) :
+    hPresentation env v m w = (.error (.lib (.missingNode m.node)), w) := by
+  simp [hPresentation, hc, M.bind, requireNode, M.getSt, hn, M.raise]
+
+/-- **The episode ends at every presentation on the system child, of any type** (protocol 2.0 or
+newer, version known, sender not the gateway): the step yields the message, writes nothing — in
+particular no presentation request, also when the node was unknown —, leaves no request to that node
+outstanding and the registry holds the fresh entry.  So the two layers agree on what "the node
+presented itself" means: exactly the lines that drop the remembered request register the node. -/
+theorem node_presentation_any_type (env : Env) (v : Ver) (hv : Ver.v20 ≤ v) (m : Msg) (w : W)
+    (hcmd : m.cmd = 0) (hc : m.child = Gen.systemChildId) (hn : m.node ≠ 0)
+    (hpv : w.st.pv.isSome = true) (hwf : IbufWF w.st) :
+    (dispatch env v m w).1 = .ok m ∧
+    (dispatch env v m w).2.writes = w.writes ∧
+    ¬ Marked (dispatch env v m w).2.st m.node ∧
+    (dispatch env v m w).2.st.nodes = w.st.nodes.set m.node { ntype := m.type, pv := m.payload } := by
+  have hre := presentation_rearms m w hc hwf
+  have hpre : prePresentation20 m w = (.ok (), (prePresentation20 m w).2) := by
+    simp only [prePresentation20, M.modifySt]
+  have h1 : (prePresentation20 m w).2.st.pv = w.st.pv ∧ (prePresentation20 m w).2.st.nodes = w.st.nodes ∧
+      (prePresentation20 m w).2.writes = w.writes := by
+    simp only [prePresentation20, M.modifySt]
+    split <;> simp
+  have hp := system_child_presentation_any_type env v m (prePresentation20 m w).2 hc hn
+  have hin : wrapMissingPV (hPresentation env v) m (prePresentation20 m w).2 = hPresentation env v m (prePresentation20 m w).2 := by
+    apply wrapMissingPV_known
+    rw [hp]; simpa [h1.1] using hpv
+  have hseq : (fun m => seq (prePresentation20 m) (wrapMissingPV (hPresentation env v) m)) m w =
+      (.ok m, { (prePresentation20 m w).2 with st := { (prePresentation20 m w).2.st with
+        nodes := (prePresentation20 m w).2.st.nodes.set m.node { ntype := m.type, pv := m.payload } } }) := by
+    show seq (prePresentation20 m) (wrapMissingPV (hPresentation env v) m) w = _
+    unfold M.seq M.bind
+    rw [hpre]
+    simp only
+    rw [hin, hp]
+  rw [dispatch_presentation env v m hcmd, if_pos hv, wrapMissingNC_ok _ m m w _ hseq]
+  refine ⟨rfl, h1.2.2, ?_, ?_⟩
+  · simpa [Marked] using hre
+  · simp [h1.2.1]
+
 /-- Handling a message from node `m.node` never touches another node's marker. -/
 def OthersSame (n : Int) : W → W → Prop := OnSt fun s s' => ∀ n', n' ≠ n → (Marked s' n' ↔ Marked s n')
 
@@ -535,6 +590,18 @@ example :
   have h := (missing_child_request_any_entry {} .v22 (by decide) m w placeholderNode (Or.inl rfl) (by decide) (by decide)
     (by decide) (by simp [Marked, w, PDict.has, PDict.get?]) (Or.inl rfl)).2.1
   rw [h]; decide
+
+/-- a presentation on the system child with a sensor type (6) from the unknown node 7 whose request is outstanding,
+gateway on 2.0: the hypotheses of `node_presentation_any_type` are met - the node is registered, nothing is outstanding -/
+example :
+    let w : W := { st := { ibuf := [((7, 255, 19), presentationRequest 7)], pv := some "2.0".toList, proto := .v20 } }
+    let m : Msg := ⟨7, 255, 0, 0, 6, "probe".toList⟩
+    (dispatch {} .v20 m w).1 = .ok m ∧ ¬ Marked (dispatch {} .v20 m w).2.st 7 ∧
+      (dispatch {} .v20 m w).2.st.nodes = [(7, { ntype := 6, pv := "probe".toList })] := by
+  intro w m
+  have h := node_presentation_any_type {} .v20 (by decide) m w rfl (by decide) (by decide) (by decide)
+    (by simp [IbufWF, PDict.WF, PDict.keys, w])
+  exact ⟨h.1, h.2.2.1, by rw [h.2.2.2]; decide⟩
 
 example : OldAlong {} [.send none false [], .send none true []] := ⟨Or.inl rfl, Or.inl rfl, trivial⟩
 
